@@ -133,17 +133,11 @@ def parse_tla(s):
 def verdict_lines(out, tags=("ACCEPT", "REJECT", "OK", "NOTE", "HIT")):
     """all <<"TAG", ...>> tuples printed by PrintT, found by bracket matching (robust to interleaving of lines)"""
     res = []
-    for tag in tags:
-        key = '<<"%s"' % tag
-        pos = 0
-        while True:
-            k = out.find(key, pos)
-            if k < 0:
-                break
-            try:
-                p = _P(out, k); v = p.val(); res.append(v); pos = p.i
-            except Exception:
-                pos = k + 2
+    for m in re.finditer(r'<<\s*"(%s)"' % "|".join(tags), out):
+        try:
+            res.append(_P(out, m.start()).val())
+        except Exception:
+            pass
     return res
 
 
